@@ -124,6 +124,7 @@ Variable fx fi fd : bool.
 Variable v : version.
 Variable ist : list attr -> istyle.
 Variable cm us : bool.
+Variable mcpos rrpos : nat.
 Hypothesis Hstyle : style_ok ist fi.
 
 Definition kid_quiet (k : xml) : Prop :=
@@ -172,8 +173,8 @@ Proof.
 Qed.
 
 Lemma conv_kid_hyps : forall k, kid_quiet k ->
-  (is_1x "units" (conv_model_kid v ist cm us k) = true -> quiet_units E fd (conv_model_kid v ist cm us k))
-  /\ (is_1x "component" (conv_model_kid v ist cm us k) = true -> units_from_component E fd (conv_model_kid v ist cm us k) = ([], [])).
+  (is_1x "units" (conv_model_kid v ist cm us mcpos rrpos k) = true -> quiet_units E fd (conv_model_kid v ist cm us mcpos rrpos k))
+  /\ (is_1x "component" (conv_model_kid v ist cm us mcpos rrpos k) = true -> units_from_component E fd (conv_model_kid v ist cm us mcpos rrpos k) = ([], [])).
 Proof.
   intros k [Hk Hq]. unfold model_kid_ok1 in Hk.
   repeat (apply orb_true_iff in Hk; destruct Hk as [Hk|Hk]).
@@ -215,7 +216,7 @@ Qed.
 
 (** component-level units in the rewriting: the parser answers exactly as without them *)
 Theorem transform_hoist : forall m, printable E true m -> expressible_1x E v m ->
-  load1x E fx fi fd false (to1x v ist cm us true E m) = load1x E fx fi fd false (to1x v ist cm us false E m).
+  load1x E fx fi fd false (to1x v ist cm us true mcpos rrpos E m) = load1x E fx fi fd false (to1x v ist cm us false mcpos rrpos E m).
 Proof.
   intros m Hp He. pose proof (printed_kids_quiet m Hp He) as Hq.
   unfold to1x. remember (print_tree E m) as t eqn:Et.
@@ -223,31 +224,31 @@ Proof.
   destruct Helem as (a & ks & ->). cbn [xml_kids] in Hq.
   unfold conv1x, load1x. rewrite !is_20_V, !is_1x_V. cbn [negb andb].
   unfold load_1x_root. cbn [xml_attrs xml_kids].
-  rewrite (hoist_fold E fi fd (map (conv_model_kid v ist cm us) ks) [] model_acc0); [reflexivity|constructor|].
+  rewrite (hoist_fold E fi fd (map (conv_model_kid v ist cm us mcpos rrpos) ks) [] model_acc0); [reflexivity|constructor|].
   apply Forall_forall. intros k' Hin. apply in_map_iff in Hin. destruct Hin as (k & <- & Hin).
   rewrite Forall_forall in Hq. apply conv_kid_hyps. now apply Hq.
 Qed.
 
 (** the theorems of TransformProofs for both placements of the units *)
 Theorem transform_as_20_h : forall hoist m, printable E true m -> expressible_1x E v m ->
-  load1x E fx fi fd false (to1x v ist cm us hoist E m)
+  load1x E fx fi fd false (to1x v ist cm us hoist mcpos rrpos E m)
   = (fst (load E fx true (print_tree E m)), msg :: snd (load E fx true (print_tree E m))).
 Proof. intros [|] m Hp He; [rewrite transform_hoist by assumption|]; now apply transform_as_20. Qed.
 
 Theorem transform_flat_h : forall hoist m, printable E true m -> expressible_1x E v m -> flat m = true ->
-  load1x E fx fi fd false (to1x v ist cm us hoist E m) = (canon E m, [msg]).
+  load1x E fx fi fd false (to1x v ist cm us hoist mcpos rrpos E m) = (canon E m, [msg]).
 Proof. intros [|] m Hp He Hf; [rewrite transform_hoist by assumption|]; now apply transform_flat. Qed.
 
 Theorem transform_encapsulation_exact_h : forall hoist m, printable E true m -> expressible_1x E v m ->
   no_imports m = true -> no_connections m = true ->
-  load1x E fx fi fd false (to1x v ist cm us hoist E m)
+  load1x E fx fi fd false (to1x v ist cm us hoist mcpos rrpos E m)
   = ({| m_name := m_name m; m_id := m_id m; m_encid := m_encid m; m_units := map (canon_units E) (m_units m);
         m_comps := map (canon_comp E) (RoundtripEncProofs.enc_order (m_comps m)); m_eqv := [] |}, [msg]).
 Proof. intros [|] m Hp He Hi Hc; [rewrite transform_hoist by assumption|]; now apply transform_encapsulation_exact. Qed.
 
 Theorem transform_roundtrip_h : forall hoist m, printable E true m -> expressible_1x E v m ->
   no_imports m = true -> no_connections m = true ->
-  exists m' is, load1x E fx fi fd false (to1x v ist cm us hoist E m) = (m', is)
+  exists m' is, load1x E fx fi fd false (to1x v ist cm us hoist mcpos rrpos E m) = (m', is)
                 /\ content_eq m' (canon E m) /\ Forall (fun i => is_message i = true) is.
 Proof. intros [|] m Hp He Hi Hc; [rewrite transform_hoist by assumption|]; now apply transform_roundtrip. Qed.
 
